@@ -538,14 +538,14 @@ Proof.
 Qed.
 
 (* PS_invariant: one iteration of the first phase preserves the invariant *)
-Theorem fp_step_inv m s st rops s' st' rops' :
+Theorem fp_step_inv_pre m s st rops s' st' rops' :
   fp_inv s st -> ps_i s + ps_u s < W ->
-  first_phase_step m s st rops = Ok (Some (s', st', rops')) ->
+  fp_pre_step m s st rops s' st' rops' ->
   fp_inv s' st' /\ ps_i s' = ps_i s + 1 /\ (hist_ok st -> hist_ok st') /\ (cover_s s -> cover_s s').
 Proof.
-  intros I Hlt H. apply first_phase_step_inv in H.
+  intros I Hlt H.
   destruct H as (end_row & chosen & r & s1 & s2 & st1 & s3 & st2 & tv & pco & r1 & wu & ec & st3 & s4 & s5 &
-    Eer & Esel & Hch & Esw & EX & Est & Esub & Etv & Epco & Er1 & Ewu & Eec & Ers & Eel & Ehd & Evf & ->).
+    Eer & Esel & Hch & Esw & EX & Est & Esub & Etv & Epco & Er1 & Ewu & Eec & Ers & Eel & Ehd & ->).
   (* end_row *)
   rewrite (fp_height _ _ I), num_hdpc_hd_rows, (fi_hlen _ _ I) in Eer. apply usub_inv in Eer; [|exact HM]. subst end_row.
   (* the selected row *)
@@ -749,6 +749,15 @@ Proof.
       * rewrite Hk0, Gi3 by lia. rewrite mulN_0_r. reflexivity.
   - rewrite A5. replace (W - ((ps_u s) + (r - 1))) with ec by (unfold ec; lia).
     pose proof (ei_st _ _ _ _ _ E4) as X. rewrite Ei3 in X. exact X.
+Qed.
+
+Theorem fp_step_inv m s st rops s' st' rops' :
+  fp_inv s st -> ps_i s + ps_u s < W ->
+  first_phase_step m s st rops = Ok (Some (s', st', rops')) ->
+  fp_inv s' st' /\ ps_i s' = ps_i s + 1 /\ (hist_ok st -> hist_ok st') /\ (cover_s s -> cover_s s').
+Proof.
+  intros I Hlt H. apply first_phase_step_inv in H. destruct H as [H _].
+  exact (fp_step_inv_pre _ _ _ _ _ _ _ I Hlt H).
 Qed.
 
 End P1.
